@@ -145,8 +145,11 @@ impl Check for C17 {
             if *unk {
                 h.extend_from_slice(&enc::unknown_size(if rng.chance(1, 2) { 8 } else { rng.range(1, 8) }));
             } else {
-                let sz = match rng.below(4) {
+                let sz = match rng.below(5) {
                     0 => rng.below(1 << 40),
+                    // a small, innocent-looking parent that the hostile child overruns (with
+                    // OversizedTags tolerated only the size limit stands between it and the allocation)
+                    1 | 2 => (target_hdr_len as u64 + rng.below(64)).min(m.max(target_hdr_len as u64)),
                     _ => inner_total,
                 }
                 .min((1u64 << 56) - 2);
